@@ -6,7 +6,7 @@ SPEC = {
     "theorems": {"Properties.C01": [
         "C01_sound_guarded", "C01_sound_partial", "C01_rule_sound", "C01_rule_sound_merge", "C01_plain_fragment_inside",
         "C01_mask_id", "C01_key_tables", "C01_fixed_witnesses_blocked", "C01_fixed_witnesses_blocked_round3", "C01_fixed_witnesses_blocked_tag_kind",
-        "C01_sound_refuted_merge_not_alias", "C01_sound_refuted_group_label_key_alias", "C01_nonvacuous", "C01_nonvacuous_alias", "C01_nonvacuous_merge"]},
+        "C01_sound_refuted_merge_not_alias", "C01_fixed_witness_blocked_label_key_alias", "C01_nonvacuous", "C01_nonvacuous_alias", "C01_nonvacuous_merge"]},
     "harness_args": lambda tier: (["C01", "--n", 300, "--cat", 40, "--stress", 4] if tier == "quick"
                                   else ["C01", "--n", 8000, "--cat", -1, "--stress", 40]),
     "search_args": lambda tier: ["C01", "--n", 3000, "--cat", -1, "--stress", 16],
@@ -53,8 +53,8 @@ MANIFEST = {
             "re-checked per case). The guards for null record/alert/expr, nameless groups and non-int "
             "limits are gone (repaired in pint: d65cbbf, cc77cdd, a6b0afc) and their former witnesses are machine-checked to be blocked now. "
             "The unguarded statement is machine-refuted by one remaining witness that the real pint passes and the real rulefmt.Parse "
-            "refuses (`<<` merge of a non-alias; a second witness for group label keys given as aliases: two known findings with class "
-            "predicates). The premises pint now enforces itself are gone from the theorem: H_null and 'null-tagged scalars spell a null' "
+            "refuses (`<<` merge of a non-alias: the one open known finding, with class predicate; a further class found in the last "
+            "session, group label keys given as yaml aliases, was repaired by cd8be7e and its witness is machine-checked to be blocked). The premises pint now enforces itself are gone from the theorem: H_null and 'null-tagged scalars spell a null' "
             "(strict pre-pass b9483ac + extensionality of the loader model in its null oracle over reachable nodes), every 'tag matches "
             "kind' clause (kind_mismatch at nine sites), 'group-level values are not aliases' (17469da); C01_sound_partial is kept as a "
             "corollary. Four more classes found or confirmed this round "
@@ -68,7 +68,7 @@ MANIFEST = {
             "key dropped/duplicated/misplaced, every value as an alias of every kind of anchor, under both name validation schemes), and "
             "reader-stress files crossing 4 KiB / 64 KiB line and buffer sizes with a valid or defective tail.",
     "note": "Coq 8.16.1 kernel+VM, no axioms; models hand-written and validated by differential execution; theorem holds on the stated "
-            "fragment under named oracle hypotheses; two open known findings (pint passes, Prometheus refuses).",
+            "fragment under named oracle hypotheses; one open known finding (pint passes, Prometheus refuses).",
     "technique": "Coq theorem relating two Gallina models (pint strict pipeline, Prometheus loader) over a shared node forest + reader "
                  "identity lemma + three-way differential correspondence + direct pint-vs-rulefmt.Parse oracle",
 }
